@@ -15,7 +15,32 @@ import (
 
 type handler func(e *Exec, fn *ssa.Function, args []Value) (Value, *GoPanic)
 
-var stdGlobalInit = map[string]func(e *Exec) Value{}
+func (e *Exec) concBytes(b ...byte) Value {
+	s := e.newSlice(types.Typ[types.Uint8], len(b), len(b))
+	arr := sliceArr(s)
+	for i, x := range b {
+		arr.E[i] = e.tb.Const(8, uint64(x))
+	}
+	return s
+}
+
+func v4in6(a, b, c, d byte) []byte {
+	return []byte{0, 0, 0, 0, 0, 0, 0, 0, 0, 0, 0xff, 0xff, a, b, c, d}
+}
+
+var stdGlobalInit = map[string]func(e *Exec) Value{
+	"net.IPv4bcast":       func(e *Exec) Value { return e.concBytes(v4in6(255, 255, 255, 255)...) },
+	"net.IPv4allsys":      func(e *Exec) Value { return e.concBytes(v4in6(224, 0, 0, 1)...) },
+	"net.IPv4allrouter":   func(e *Exec) Value { return e.concBytes(v4in6(224, 0, 0, 2)...) },
+	"net.IPv4zero":        func(e *Exec) Value { return e.concBytes(v4in6(0, 0, 0, 0)...) },
+	"net.IPv6zero":        func(e *Exec) Value { return e.concBytes(make([]byte, 16)...) },
+	"net.IPv6unspecified": func(e *Exec) Value { return e.concBytes(make([]byte, 16)...) },
+	"net.IPv6loopback":    func(e *Exec) Value { return e.concBytes(0, 0, 0, 0, 0, 0, 0, 0, 0, 0, 0, 0, 0, 0, 0, 1) },
+	"net.v4InV6Prefix":    func(e *Exec) Value { return e.concBytes(0, 0, 0, 0, 0, 0, 0, 0, 0, 0, 0xff, 0xff) },
+	"net.classAMask":      func(e *Exec) Value { return e.concBytes(255, 0, 0, 0) },
+	"net.classBMask":      func(e *Exec) Value { return e.concBytes(255, 255, 0, 0) },
+	"net.classCMask":      func(e *Exec) Value { return e.concBytes(255, 255, 255, 0) },
+}
 
 func (e *Exec) argStr(v Value) string {
 	s, ok := strConcrete(v.(*StrV))
@@ -182,6 +207,39 @@ func init() {
 		},
 		"verifOr": func(e *Exec, fn *ssa.Function, a []Value) (Value, *GoPanic) {
 			return e.tb.Or(a[0].(*Term), a[1].(*Term)), nil
+		},
+		"verifAt": func(e *Exec, fn *ssa.Function, a []Value) (Value, *GoPanic) {
+			e.envInit()
+			at := e.tb.Resize(a[0].(*Term), 64, true)
+			f := a[1]
+			e.addEvent(at, "harness event", func() { e.spawn(deferred{fn: f}) })
+			return nil, nil
+		},
+		"verifNow": func(e *Exec, fn *ssa.Function, a []Value) (Value, *GoPanic) {
+			e.envInit()
+			return e.env.now, nil
+		},
+		"verifSettle": func(e *Exec, fn *ssa.Function, a []Value) (Value, *GoPanic) {
+			e.envInit()
+			for i := 0; i < 2*len(e.env.gs)+2; i++ {
+				e.yield()
+			}
+			return nil, nil
+		},
+		"verifGoroutines": func(e *Exec, fn *ssa.Function, a []Value) (Value, *GoPanic) {
+			e.envInit()
+			n := 0
+			for _, g := range e.env.gs[1:] {
+				if !g.finished {
+					n++
+				}
+			}
+			return e.tb.Const(64, uint64(n)), nil
+		},
+		"verifSchedule": func(e *Exec, fn *ssa.Function, a []Value) (Value, *GoPanic) {
+			e.envInit()
+			e.env.explore = a[0].(*Term).IsTrue()
+			return nil, nil
 		},
 		"verifAllocBytes": func(e *Exec, fn *ssa.Function, a []Value) (Value, *GoPanic) {
 			return e.tb.Const(64, uint64(e.alloc)), nil
